@@ -6,17 +6,19 @@
           (VTK-XML reader on such files), `Fc.W.csvWrite / csvRead` (FcModel/{VtuWriter,Csv}.lean)
   Spec:   `Fc.W.Spec.normalise` (FcModel/Spec/C13.lean)
 
-  Full statement aimed at (DESIGN §7):   hyp F → (writeVtu id F).bind readVtu = normalise F.
-  Proved here: every link of that chain that depends on the data — the element encoding for every payload
-  length and dtype, the header arithmetic, the type tables, the cell layout per type, the cell-data split,
-  point padding, the CSV token layer.  NOT proved: the composition of these links through the record
-  plumbing of `readVtu` (lookup of the elements, the order of `np.unique`); it is re-checked at run time on
-  every generated case (`back = spec` in the driver reply, compared by harness/corr/c13.py).
+  Full statement (DESIGN §7), proved as `C13_vtu_roundtrip` / `C13_vtu_roundtrip_bind`:
+      hyp F → sizeOk F → (writeVtu id F).bind readVtu = normalise F   (and both sides are defined).
+  The other theorems are the links of that chain, each at full generality of its own hypotheses: the element
+  encoding for every payload length and dtype, the header arithmetic, the type tables, the cell layout per type,
+  the cell-data split, the `np.unique` order, point padding; and the CSV token layer.
+  The XML layer is not modelled (a file is the record of its data-array elements; the harness compares files
+  element by element); arrays are logical row-major item lists (numpy's `flatten()` is trusted, see NOTES_C13).
 -/
 import FcProofs.Lemmas.BytesW
 import FcProofs.Lemmas.FileW
 import FcProofs.Lemmas.CellDataW
 import FcProofs.Lemmas.CsvW
+import FcProofs.Lemmas.C13Roundtrip
 import FcModel.Spec.C13
 namespace Fc
 open Fc.W
@@ -48,38 +50,8 @@ theorem C13_dataarray_roundtrip (name : String) (a : WArr) (given : Option Nat) 
     (hg : ∀ k, given = some k → k = prod a.tail)
     (hty : ∀ v, dtypeToVtk a.dt = some v → vtkToDtype v = some a.dt)
     (he : makeDataArray name a given = some e) :
-    readItems e = some (a.dt, a.items) ∧ e.name = name ∧ e.ncomps = prod a.tail := by
-  unfold WArr.wf at hw
-  simp only [Bool.and_eq_true, beq_iff_eq, List.all_eq_true, decide_eq_true_eq, ne_eq] at hw
-  obtain ⟨⟨hsz, hlen⟩, hit⟩ := hw
-  unfold makeDataArray at he
-  -- the component count
-  have hnc : ∀ nc, numComps a given = some nc → nc = prod a.tail := by
-    intro nc h
-    unfold numComps at h
-    cases given with
-    | some k => simp only [Option.some.injEq] at h; subst h; exact hg k rfl
-    | none =>
-      by_cases h0 : a.rows = 0
-      · simp [h0] at h
-      · simp only [h0, if_false, Option.some.injEq] at h; exact h.symm
-  cases hc : numComps a given with
-  | none => simp [hc] at he
-  | some nc =>
-    have hnc2 := hnc nc hc
-    cases hv : dtypeToVtk a.dt with
-    | none => simp [hc, hv] at he
-    | some v =>
-      simp only [hc, hv, Option.some.injEq] at he
-      subst he
-      refine ⟨?_, rfl, hnc2⟩
-      unfold readItems
-      simp only [hty v hv]
-      have hbytes : a.rows * nc * dtypeSize a.dt = (itemsToBytes (dtypeSize a.dt) a.items).length := by
-        rw [itemsToBytes_length, hlen, hnc2]
-      rw [hbytes, noCompRead_encodeText _ (itemsToBytes_lt _ _) (by rw [itemsToBytes_length]; exact hn)]
-      simp only
-      rw [frombuffer_itemsToBytes hsz a.items hit]
+    readItems e = some (a.dt, a.items) ∧ e.name = name ∧ e.ncomps = prod a.tail :=
+  readItems_makeDataArray name a given e hw hn hg hty he
 
 /-- **C13 (numeric types preserved).** Every numpy dtype of the writer's table (regenerated from
     `_helpers._VTK_TYPE_TO_DTYPE`) maps to a VTK type name that the reader maps back to the same dtype,
@@ -91,20 +63,20 @@ theorem C13_types_preserved :
 /-- the ten numeric dtypes are all registered -/
 theorem C13_all_dtypes_registered :
     ∀ d ∈ ["int8", "int16", "int32", "int64", "uint8", "uint16", "uint32", "uint64", "float32", "float64"],
-      ∃ v, dtypeToVtk d = some v ∧ vtkToDtype v = some d := by
-  decide
+      ∃ v, dtypeToVtk d = some v ∧ vtkToDtype v = some d :=
+  all_dtypes_registered
 
-/-- **C13 (every array of the written file, partial composition).**  Whenever the writer produces a file for
-    field data `F` (any number of point fields of any registered dtypes and shapes, any points, at least one cell),
-    then in that file
+/-- **C13 (every array of a written file).**  Whenever the writer produces a file for field data `F`
+    (no assumption on `F` beyond the well-formedness of the single arrays: any number of point fields of any
+    registered dtypes and shapes, any points, at least one cell), then in that file
     * the point-data elements carry, in order, the names, component counts and — read back — the dtypes and exact
       bit patterns of the point fields;
     * the `Coordinates` element reads back to the padded points;
     * `connectivity`, `offsets`, `types` read back to the flat corner list, the running sums of the corner counts
       and the type indices of the cell sequence — the arrays `C13_cells_roundtrip` starts from.
-    Missing for the full `readVtu (writeVtu F) = normalise F`: the cell-data elements (the per-name gathering of
-    `cellFieldValues`) and the assembly of the per-type results in `np.unique` order. -/
-theorem C13_vtu_arrays_roundtrip_partial (F : WFields) (file : VtuFile) (hw : writeVtu id F = some file)
+    (Phase 1 called this `…_partial`; the full composition is `C13_vtu_roundtrip` below — this statement is kept
+    because it does not need `hyp`.) -/
+theorem C13_vtu_arrays_roundtrip (F : WFields) (file : VtuFile) (hw : writeVtu id F = some file)
     (hpf : ∀ f ∈ F.pf, ArrOk f.2) (hpt : ArrOk (pointArray id F)) (hcs : allCells F.cells ≠ [])
     (hconn : ArrOk ⟨F.conntype, ((allCells F.cells).flatMap (·.2)).length, [], (allCells F.cells).flatMap (·.2)⟩)
     (hoffs : ArrOk ⟨"int64", (runningSums 0 ((allCells F.cells).map (·.2.length))).length, [],
@@ -125,17 +97,10 @@ theorem C13_vtu_arrays_roundtrip_partial (F : WFields) (file : VtuFile) (hw : wr
     | nil => exact absurd hc hcs
     | cons _ _ => rfl
   rw [hcsb] at h4 h5 h7
-  -- one array
   have one : ∀ (name : String) (a : WArr) (given : Option Nat) (e : DataArr), ArrOk a →
       (∀ k, given = some k → k = prod a.tail) → makeDataArray name a given = some e →
-      readItems e = some (a.dt, a.items) ∧ e.name = name ∧ e.ncomps = prod a.tail := by
-    intro name a given e hok hg he
-    refine C13_dataarray_roundtrip name a given e hok.wf hok.small hg ?_ he
-    intro v hv
-    obtain ⟨v', hv1, hv2⟩ := C13_all_dtypes_registered a.dt hok.reg
-    rw [hv1] at hv
-    cases hv
-    exact hv2
+      readItems e = some (a.dt, a.items) ∧ e.name = name ∧ e.ncomps = prod a.tail :=
+    fun name a given e hok hg he => hok.read name given e hg he
   refine ⟨?_, hn, ?_, ?_, ?_, tys, h6, ?_⟩
   · apply mapM'_map_eq _ _ _ F.pf file.pointData h1
     intro f hf e he
@@ -149,8 +114,8 @@ theorem C13_vtu_arrays_roundtrip_partial (F : WFields) (file : VtuFile) (hw : wr
 /-- **C13 (cell types preserved).** Every cell type of `_CELL_TYPE_INDEX_TO_STR` (regenerated from the
     source) is written as an index that the reader maps back to the same type. -/
 theorem C13_celltypes_preserved :
-    ∀ p ∈ Fc.Gen.wCellTypeIndexToStr, cellTypeIndex p.2 = some p.1 ∧ cellTypeName p.1 = some p.2 := by
-  decide
+    ∀ p ∈ Fc.Gen.wCellTypeIndexToStr, cellTypeIndex p.2 = some p.1 ∧ cellTypeName p.1 = some p.2 :=
+  celltypes_preserved
 
 /-- **C13 (cells per type).** Let the mesh consist of blocks with pairwise distinct types, the block of type
     `t` having rows of `k` corners each (and at least one).  From the `connectivity`, `offsets`, `types` arrays the
@@ -161,23 +126,8 @@ theorem C13_cells_roundtrip (t k : Nat) (pre suf : List (Nat × List (List Nat))
     (hpre : ∀ b ∈ pre, b.1 ≠ t) (hsuf : ∀ b ∈ suf, b.1 ≠ t)
     (hk : ∀ r ∈ rows, r.length = k) (hne : rows ≠ []) :
     let all := (pre ++ (t, rows) :: suf).flatMap fun b => b.2.map fun r => (b.1, r)
-    cornersOf (all.flatMap (·.2)) (runningSums 0 (all.map (·.2.length))) (all.map (·.1)) t = some rows := by
-  intro all
-  have hfilter := blockRows_filter t pre suf rows hpre hsuf
-  have hk' : ∀ c ∈ all, c.1 = t → c.2.length = k := by
-    intro c hc hct
-    have : c.2 ∈ (all.filter (·.1 == t)).map (·.2) :=
-      List.mem_map.mpr ⟨c, List.mem_filter.mpr ⟨hc, by simp [hct]⟩, rfl⟩
-    rw [hfilter] at this
-    exact hk _ this
-  have hex : ∃ c ∈ all, c.1 = t := by
-    cases rows with
-    | nil => exact absurd rfl hne
-    | cons r rs =>
-      refine ⟨(t, r), ?_, rfl⟩
-      apply List.mem_flatMap.mpr
-      exact ⟨(t, r :: rs), by simp, by simp⟩
-  rw [cornersOf_written t k all hk' hex, hfilter]
+    cornersOf (all.flatMap (·.2)) (runningSums 0 (all.map (·.2.length))) (all.map (·.1)) t = some rows :=
+  cornersOf_blocks t k pre suf rows hpre hsuf hk hne
 
 /-- **C13 (cell data split).** A cell-data array written block by block (`k` scalars per cell, the blocks in
     mesh order, pairwise distinct types) is split by the reader's index map (`entire[index_map[t]]`) into
@@ -198,6 +148,43 @@ theorem C13_points_padded (p : List Nat) (h : p.length ≤ 3) :
   | [a], _ => exact ⟨rfl, rfl, by intro i h1 h2; match i, h1, h2 with | 1, _, _ => rfl | 2, _, _ => rfl⟩
   | [a, b], _ => exact ⟨rfl, rfl, by intro i h1 h2; match i, h1, h2 with | 2, _, _ => rfl⟩
   | [a, b, c], _ => exact ⟨rfl, rfl, by intro i h1 h2; simp at h1; omega⟩
+
+/-- **C13 (`np.unique` order).** The reader's list of cell types (`np.unique(types)`) is the strictly ascending
+    list of the type ids that occur: any strictly ascending list with the same members is equal to it. -/
+theorem C13_unique_order (types L : List Nat) (hs : L.Pairwise (· < ·)) (hm : ∀ t, t ∈ L ↔ t ∈ types) :
+    uniqueTypes types = L :=
+  uniqueTypes_eq types L hs hm
+
+/-- **C13 (what must be read back: the cells).** Under `hyp`, the cell blocks of `normalise F` are exactly the
+    non-empty blocks of `F` (same names, same rows in mesh order), listed in strictly ascending order of their VTK
+    type ids — a statement about the spec that does not mention how it sorts. -/
+theorem C13_normalise_cells (F : WFields) (h : Spec.hyp F = true) (R : RFields) (hR : Spec.normalise F = some R) :
+    (∀ b, b ∈ R.cells ↔ (b ∈ F.cells ∧ b.2 ≠ [])) ∧
+    (R.cells.map fun b => (cellTypeIndex b.1).getD 0).Pairwise (· < ·) :=
+  normalise_cells F (facts_of_hyp F h) R hR
+
+/-- **C13 (file-level round trip, full statement).**  For every mesh-fields value `F` inside the hypothesis
+    (`Spec.hyp`: 1–3 coordinate columns, float64 points or 3-d float32 points, any number of blocks of pairwise
+    distinct known cell types — empty blocks allowed, a mesh without cells allowed —, one corner count per block,
+    connectivity of any registered integer dtype, any number of point fields and of cell fields of all ten numeric
+    dtypes with arbitrary tails (scalar / vector / tensor …), every cell-field name present exactly once on every
+    block with one dtype and tail; `Spec.sizeOk`: no array with 2^61 or more scalars)
+    * the writer produces a file,
+    * `normalise F` is defined, and
+    * reading the written file back yields exactly `normalise F`: the padded points and their dtype, per cell type
+      (ascending VTK id = `np.unique` order) the corner rows in mesh order, every point field with name / dtype /
+      component count / exact bit patterns in order, every cell field with name / dtype / component count and, per
+      cell type, exactly the bits written for that type's cells. -/
+theorem C13_vtu_roundtrip (F : WFields) (h : Spec.hyp F = true) (hs : Spec.sizeOk F = true) :
+    ∃ file R, writeVtu id F = some file ∧ Spec.normalise F = some R ∧ readVtu file = some R :=
+  vtu_roundtrip F h hs
+
+/-- the same in the form of DESIGN §7 -/
+theorem C13_vtu_roundtrip_bind (F : WFields) (h : Spec.hyp F = true) (hs : Spec.sizeOk F = true) :
+    (writeVtu id F).bind readVtu = Spec.normalise F ∧ (Spec.normalise F).isSome = true := by
+  obtain ⟨file, R, hw, hn, hr⟩ := vtu_roundtrip F h hs
+  rw [hw, hn]
+  exact ⟨hr, rfl⟩
 
 /-- **C13 (CSV, token level).** For every table with at least one column whose names and cell tokens are
     non-empty and free of the delimiter and the newline: the text written by `_write_table` is split by the
@@ -263,5 +250,53 @@ theorem C13_csv_roundtrip (names : List Token) (rows : List (List Token)) (h : c
     rw [List.all_eq_true]; intro r hr; simp [(hrows r hr).1]
   rw [hall]
   rfl
+
+/-- **C13 (CSV, the hypothesis is sharp).**  For a rectangular table with at least one column whose names and
+    cell tokens are non-empty and newline-free: the text written by `_write_table` is read back as the same names
+    and the same rows of tokens **if and only if** no name and no cell token contains the delimiter.  (A delimiter
+    inside a token changes the number of pieces of its line: the header changes, or the row is a `ValueError`.) -/
+theorem C13_csv_roundtrip_iff (names : List Token) (rows : List (List Token)) (hne : names ≠ [])
+    (hrect : ∀ r ∈ rows, r.length = names.length)
+    (htok : ∀ l ∈ names :: rows, ∀ t ∈ l, t ≠ [] ∧ ∀ c ∈ t, c ≠ 10) :
+    csvRead (csvWrite names rows) = some (names, rows) ↔ ∀ l ∈ names :: rows, ∀ t ∈ l, ∀ c ∈ t, c ≠ 44 := by
+  have hrne : ∀ r ∈ rows, r ≠ [] := by
+    intro r hr e
+    have := hrect r hr
+    rw [e] at this
+    exact hne (List.eq_nil_of_length_eq_zero this.symm)
+  rw [csvRead_csvWrite_form names rows hne hrne htok]
+  constructor
+  · intro h
+    split at h
+    · simp only [Option.some.injEq, Prod.mk.injEq] at h
+      intro l hl
+      rcases List.mem_cons.mp hl with e | hl'
+      · rw [e]; exact sep_free_of_split_join 44 names hne h.1
+      · exact sep_free_of_split_join 44 l (hrne l hl')
+          (map_eq_self (fun r => splitOn 44 (joinWith 44 r)) rows h.2 l hl')
+    · cases h
+  · intro h
+    have hn : splitOn 44 (joinWith 44 names) = names := splitOn_joinWith 44 names hne (h names (by simp))
+    have hr : (rows.map fun r => splitOn 44 (joinWith 44 r)) = rows := by
+      conv => rhs; rw [← List.map_id rows]
+      apply List.map_congr_left
+      intro r hr
+      exact splitOn_joinWith 44 r (hrne r hr) (h r (by simp [hr]))
+    rw [hn, hr]
+    have hall : (rows.all fun r => r.length == names.length) = true := by
+      rw [List.all_eq_true]; intro r hr; simp [hrect r hr]
+    rw [hall]
+    rfl
+
+/-- **C13 (CSV, no two tables share a text).** Inside the hypothesis of the round trip, `_write_table` is
+    injective: different names or different cell tokens give different files. -/
+theorem C13_csv_write_injective (names names' : List Token) (rows rows' : List (List Token))
+    (h : csvHyp names rows = true) (h' : csvHyp names' rows' = true)
+    (e : csvWrite names rows = csvWrite names' rows') : names = names' ∧ rows = rows' := by
+  have h1 := C13_csv_roundtrip names rows h
+  have h2 := C13_csv_roundtrip names' rows' h'
+  rw [e, h2] at h1
+  simp only [Option.some.injEq, Prod.mk.injEq] at h1
+  exact ⟨h1.1.symm, h1.2.symm⟩
 
 end Fc
